@@ -433,6 +433,7 @@ func c05(r *core.Report) {
 	c05Text(r)
 	c05ArraySize(r)
 	c05Found(r)
+	c05NumKinds(r)
 	_ = p
 }
 
